@@ -5,6 +5,12 @@ from . import core
 TRACE_SPEC = {"reader": ("WSReaderTrace.tla", "WSReaderTrace.cfg"), "writer": ("WSWriterTrace.tla", "WSWriterTrace.cfg")}
 
 
+import glob as _glob, importlib as _imp
+for _f in sorted(_glob.glob(os.path.join(os.path.dirname(__file__), "props_*.py"))):
+    _m = _imp.import_module("engine." + os.path.basename(_f)[:-3])
+    TRACE_SPEC.update(getattr(_m, "TRACE_SPEC", {}))
+
+
 def main(pid, path):
     r = json.load(open(path))
     fam = r["family"]
